@@ -917,3 +917,19 @@ LIFT_RULE = (' Lifted replay (stages lift_lemma, lift_bfs): the reference semant
 for _p in ('C01', 'C11', 'C10', 'C02'):
     PLAN[_p]['stages'] = (lambda f: (lambda tier, seed: f(tier, seed) + [liftlemma(tier), lift(tier)]))(PLAN[_p]['stages'])
     PLAN[_p]['rule'] += LIFT_RULE
+
+
+def lift_light(tier, acts):
+    q = tier == 'quick'
+    u = 1 if 'undoblock' in acts else 0
+    st = light('lift_light', acts, 5 if q else 6, 3, stack=u, und=u)
+    st['fam'] = 'lift'
+    return st
+
+
+LIFT_LIGHT_RULE = (' Stage lift_light: the light-client behaviours replayed on lifted forests (see the lifting lemma spec/Lift.tla): the '
+                   'verifier state starts as the bare roots of trees holding 2^31 .. 2^62 leaves and every position received, held and '
+                   'returned is a shifted one.')
+for _p, _acts in (('C07', ['block']), ('C08', ['block', 'undoblock'])):
+    PLAN[_p]['stages'] = (lambda f, a: (lambda tier, seed: f(tier, seed) + [lift_light(tier, a)]))(PLAN[_p]['stages'], _acts)
+    PLAN[_p]['rule'] += LIFT_LIGHT_RULE
